@@ -330,6 +330,12 @@ def direct(tname, table):
                  % (el.symbol, "raises " + type(m).__name__ if isinstance(m, BaseException) else sorted(m), sorted(exp)),
                  atom=el.symbol, observed=repr(m)[:200], expected=sorted(exp))
             continue
+        for q_ in sorted(set(range(-3, 9)) - set(exp)):
+            got_ = attempt(lambda: m[q_])
+            if not isinstance(got_, (KeyError, IndexError)):
+                fail("magnetic_ff", "%s%+d:absent" % (el.symbol, q_), "%s.magnetic_ff[%d] gives %r although the CrysFML text has no entry for that charge "
+                     "state (it lists %s)" % (el.symbol, q_, got_, sorted(exp)), atom=el.symbol, charge=q_, expected="KeyError")
+                break
         for ch, sets in exp.items():
             ff = m[ch]
             for c2 in el.ions:
